@@ -176,6 +176,10 @@ def check(ctx, replay=None):
                     goals.append("false")
             if bi == 0 and std == "c++17":
                 samples = [{"method": calls[i]["m"]["name"], "params": [mod.rust_ty(t) for _, t in calls[i]["m"]["params"]], "observed": recs.get(i)} for i in (0, len(calls) // 2)]
+    import c02_extra, c03_e2e
+    nextra = c02_extra.run(ctx, ("c++17",) if ctx.quick() else ("c++17", "c++20"))
+    # callbacks: values and state carried through the std::function trampoline (shared with C03's lifecycle histories)
+    c03_e2e.run_cpp_callbacks(ctx)
     fails = run_shards(PROP, HEADER, goals) if goals else []
     if fails and viol == 0:
         ctx.violation("corr:transport", {"broken": "correspondence goal " + goals[fails[0]][:500] + " : Cpp/Model.v's conversion semantics do not reproduce the observed transport"}, False)
